@@ -145,22 +145,24 @@ def contracts():
     init.cases = ext_cases
     cs.append(init)
 
-    def ext_inv(which):
-        def inv(env, st, i):
-            pre = st.ghost["pre"]
-            a = st.ghost["args"]
-            src = argsrc(pre, a)
-            cur = st.th["self.items"]
-            if which == "src":
-                return [("view", cur == z3.Concat(pre.items, sub(src, 0, i)))]
-            return [("view", cur == z3.Concat(pre.items, src, sub(kwsrc(a), 0, i)))]
-        return inv
+    def ext_inv(env, st, i):
+        # one specification for every loop of extend(): a loop over the keyword arguments has consumed the whole positional
+        # source; any other loop is over the positional source (whatever local it was bound to)
+        pre = st.ghost["pre"]
+        a = st.ghost["args"]
+        src = argsrc(pre, a)
+        cur = st.th["self.items"]
+        seq = st.ghost.get("loop.seq")
+        over_kw = seq is not None and isinstance(a.get("kwargs"), Z) and seq.eq(kwsrc(a))
+        if not over_kw:
+            return [("view", cur == z3.Concat(pre.items, sub(src, 0, i)))]
+        return [("view", cur == z3.Concat(pre.items, src, sub(kwsrc(a), 0, i)))]
 
     ext = mut(M + "extend", requires=req_wf, exits=[
         Exit("return", when=nargs_ok, post=lambda pre, post, a, r: [
             ("view", post.items == z3.Concat(pre.items, argsrc(pre, a), kwsrc(a))), wf(post)]),
         Exit("TypeError", when=nargs_bad, post=lambda pre, post, a, r: same(pre, post))],
-        loops={0: LoopSpec(inv=ext_inv("src")), 1: LoopSpec(inv=ext_inv("src")), 2: LoopSpec(inv=ext_inv("kw"))},
+        loops={"*": LoopSpec(inv=ext_inv)},
         props=("C10",))
     ext.cases = ext_cases
     cs.append(ext)
